@@ -39,12 +39,13 @@ type node struct {
 }
 
 type tcase struct {
-	Kind string `json:"kind"` // err | addr
-	Tree *node  `json:"tree,omitempty"`
-	Twin *node  `json:"twin,omitempty"` // same shape, other addresses
-	A    string `json:"a,omitempty"`    // hex
-	B    string `json:"b,omitempty"`    // hex: same port / same splittability, other host
-	Note string `json:"note,omitempty"`
+	Kind string  `json:"kind"` // err | addr
+	Tree *node   `json:"tree,omitempty"`
+	Twin *node   `json:"twin,omitempty"` // same shape, other addresses
+	A    string  `json:"a,omitempty"`    // hex
+	B    string  `json:"b,omitempty"`    // hex: same port / same splittability, other host
+	Note string  `json:"note,omitempty"`
+	CS   *csCase `json:"callsite,omitempty"` // kind "callsite": see callsites.go
 }
 
 // strAddr is a net.Addr with an arbitrary textual form.
@@ -588,6 +589,9 @@ func main() {
 			fmt.Fprintln(os.Stderr, "cannot load replay:", err)
 			os.Exit(3)
 		}
+		if c.Kind == "callsite" && c.CS != nil {
+			callSites(r, c.CS)
+		}
 		check(r, d, c)
 		r.Finish()
 	}
@@ -609,6 +613,8 @@ func main() {
 			}
 		}
 	}
+
+	callSites(r, nil) // the call sites in obfs4proxy (package main), through the hook driver
 
 	rng := vlib.NewRng(r.Seed)
 	for i, n := 0, r.Scale(60000, 1000000); i < n; i++ {
